@@ -50,6 +50,7 @@ from lxml.etree import XMLParser
 
 from spyne import BODY_STYLE_WRAPPED
 from spyne.util import six
+from spyne.util.six import string_types
 from spyne.const.xml import DEFAULT_NS
 from spyne.const.http import HTTP_405, HTTP_500
 from spyne.error import RequestNotAllowed
@@ -80,13 +81,19 @@ def _from_soap(in_envelope_xml, xmlids=None, **kwargs):
     if len(header_envelope) == 0 and len(body_envelope) == 0:
         raise Fault('Client.SoapError', 'Soap envelope is empty!')
 
+    # (children that are elements: not comments, processing instructions or
+    # entity references)
     header = None
     if len(header_envelope) > 0:
-        header = header_envelope[0].getchildren()
+        header = [c for c in header_envelope[0]
+                                            if isinstance(c.tag, string_types)]
 
     body = None
-    if len(body_envelope) > 0 and len(body_envelope[0]) > 0:
-        body = body_envelope[0][0]
+    if len(body_envelope) > 0:
+        for c in body_envelope[0]:
+            if isinstance(c.tag, string_types):
+                body = c
+                break
 
     return header, body
 
